@@ -126,15 +126,16 @@ func (g *DirectedTargetGraph) GetDependencies(target model.BuildNode) []model.Bu
 func (g *DirectedTargetGraph) GetTargetDependencies(node model.BuildNode) []*model.Target {
 	var targets []*model.Target
 	for _, dependency := range g.GetDependencies(node) {
-		if target := g.resolveTarget(dependency); target != nil {
+		if target := g.ResolveTarget(dependency); target != nil {
 			targets = append(targets, target)
 		}
 	}
 	return targets
 }
 
-// resolveTarget follows alias nodes to the target they (transitively) point to.
-func (g *DirectedTargetGraph) resolveTarget(node model.BuildNode) *model.Target {
+// ResolveTarget follows alias nodes to the target they (transitively) point to.
+// Returns nil if the node does not lead to a target.
+func (g *DirectedTargetGraph) ResolveTarget(node model.BuildNode) *model.Target {
 	// bounded by the number of nodes: alias cycles are rejected when the graph is built
 	for i := 0; i <= len(g.nodes); i++ {
 		if target, ok := node.(*model.Target); ok {
